@@ -32,6 +32,8 @@
 //@endslice
 
 // C09: the flag-handling regions of validate() and learn(), each emitted verbatim as a method of its own.
+// C04: the statement of `learn` that splits the data into groups (rayon's par_chunks replaced by std's chunks in the mirror)
+//@region fn=verif_learn_batches impl=Network src=learn part="region:/let batches: Vec</../^            \.collect\(\);/" sig="<'a>(inputs: &'a Vec<&'a tensor::Tensor>, targets: &'a Vec<&'a tensor::Tensor>, batch: usize) -> Vec<(&'a [&'a tensor::Tensor], &'a [&'a tensor::Tensor])>" tail="batches"
 //@region fn=verif_validate_prologue impl=Network src=validate part="region:/let mut training: bool = false;/../for layer in &mut self\.layers \{/" sig="(&mut self) -> bool" tail="training"
 //@region fn=verif_validate_epilogue impl=Network src=validate part="region:/if training \{/../if training \{/" sig="(&mut self, training: bool)" tail=""
 //@region fn=verif_learn_entry impl=Network src=learn part="region:/self\.layers\.iter_mut\(\)\.for_each\(\|layer\| match layer \{/../self\.layers\.iter_mut\(\)\.for_each\(\|layer\| match layer \{/" sig="(&mut self)" tail=""
@@ -304,4 +306,39 @@ mod harnesses {
     stop_harness!(c13_stop_e2_t1, 2, 1, 4, true);
     // @harness c13_stop_e5_t4 props=C13 tier=thorough kind=bounded flags="--no-overflow-checks" bound="5 epochs, tolerance 4" what="early stopping contract" timeout=900
     stop_harness!(c13_stop_e5_t4, 5, 4, 7, true);
+
+    // C04: groups are consecutive runs of `batch` samples in the given order, the last one possibly shorter; inputs and targets
+    // are split alike.  Bounded: up to 4 samples, every batch size 1..=5 (B = 1, B not dividing N, B > N included).
+    // @harness c04_batches_partition props=C04 tier=quick kind=bounded flags="--no-overflow-checks" bound="N <= 4 samples, batch size 1..=5 (all)" what="the batch list built by learn() is the ordered partition of the samples into consecutive groups of B (last group shorter), inputs and targets alike" timeout=900
+    #[kani::proof]
+    #[kani::unwind(7)]
+    fn c04_batches_partition() {
+        let t: [Tensor; 4] = [Tensor::single(vec![0.0]), Tensor::single(vec![1.0]), Tensor::single(vec![2.0]), Tensor::single(vec![3.0])];
+        let u: [Tensor; 4] = [Tensor::single(vec![4.0]), Tensor::single(vec![5.0]), Tensor::single(vec![6.0]), Tensor::single(vec![7.0])];
+        let n: usize = kani::any();
+        let b: usize = kani::any();
+        kani::assume(n >= 1 && n <= 4 && b >= 1 && b <= 5);
+        let mut inputs: Vec<&Tensor> = Vec::new();
+        let mut targets: Vec<&Tensor> = Vec::new();
+        let mut k = 0;
+        while k < n { inputs.push(&t[k]); targets.push(&u[k]); k += 1; }
+        let batches = Network::verif_learn_batches(&inputs, &targets, b);
+        let groups = (n + b - 1) / b;
+        assert!(batches.len() == groups);
+        let mut g = 0;
+        while g < groups {
+            let want = if (g + 1) * b <= n { b } else { n - g * b };
+            assert!(batches[g].0.len() == want && batches[g].1.len() == want);
+            let mut j = 0;
+            while j < want {
+                assert!(std::ptr::eq(batches[g].0[j], &t[g * b + j]));
+                assert!(std::ptr::eq(batches[g].1[j], &u[g * b + j]));
+                j += 1;
+            }
+            g += 1;
+        }
+        kani::cover!(groups == 2 && n % b != 0);
+        kani::cover!(b > n);
+        std::mem::forget(batches); std::mem::forget(inputs); std::mem::forget(targets); std::mem::forget(t); std::mem::forget(u);
+    }
 }
